@@ -145,7 +145,7 @@ impl Prop for C06 {
         }
         let mut spec = case.spec.clone();
         if case.boundary_fault {
-            spec.fault = Some(Fault { at: boundary as u64, kind: FaultKind::Err(ErrKind::ConnectionReset), once: false });
+            spec.fault = Some(Fault { at: boundary as u64, kind: FaultKind::Err(ErrKind::ConnectionReset), once: false, os: false });
         }
         let core = SimCore::new();
         let data = Arc::new(all);
